@@ -1,7 +1,53 @@
 """Per-property claim texts for MANIFEST.json (edited by hand, consumed by gen_manifest.py)."""
-FIX_COMMITS = ["da7f963 (C05 control frames)"]
+FIX_COMMITS = ["da7f963 (C05 control frames)", "41cccf6 (C06 truncated UTF-8)", "36eeb72 (C08 one close frame)", "ccb92e4 (C08 close() releases transport)", "4a48db5 (C09 redirect limit)"]
 NOT_APPLICABLE = {}
 CLAIMS = {
+ "C01": {
+  "text": "Structural necessary conditions of a well-formed client frame, decided from the source: ABNF.format is interpreted abstractly over all payload lengths (interval partition) giving the complete length-encoding table; the two header-byte expressions are normalised to a bit layout and compared with RFC 6455 5.2; every public sender is interpreted down to send_frame and the frame it builds is checked (rsv=0, mask=1, requested fin/opcode, UTF-8 text); exactly one key draw of 4 bytes whose result is both the wire prefix and the XOR key, from os.urandom unless a key source is configured; send_frame returns len(format()) and send returns it; only send_frame reaches the transport; trace blocks are pure.",
+  "note": "Not decided (value properties): the XOR arithmetic of _mask for arbitrary payloads beyond its constants agreeing, str.encode, what an independent decoder recovers. Trusted: struct.pack, os.urandom, Python semantics as implemented by the interpreter's transfer functions.",
+  "technique": "abstract interpretation (intervals, string/bytes templates, bit-field normalisation) + who-may-call lints",
+ },
+ "C02": {
+  "text": "The receive path is interpreted over an opaque transport; on every path the fields of the ABNF object finally built are terms over the bytes read. Decided: reader bit layout of both header bytes equals RFC 6455 5.2 (and hence the writer's), the 7/16/64-bit length table with big-endian struct formats, the exact sequence and sizes of reads per frame (2 + extension + 4 iff masked + decoded length), unmask iff masked with (key, payload) in that order, recv_strict returns buffered[:n] and keeps buffered[n:] and never asks for more than is missing.",
+  "note": "Not decided: byte-level equality with an independent decoder on arbitrary payload bytes. recv_strict's loop is explored to a bounded unrolling (its per-iteration shape is what is checked). Trusted: struct.unpack, list/bytes semantics.",
+  "technique": "abstract interpretation with symbolic byte terms + bit-field normalisation; sibling check writer/reader layout",
+ },
+ "C03": {
+  "text": "Exception-safety structure that segmentation independence rests on: recv_strict keeps every received byte when the transport raises at any call; a timeout injected at each read of recv_frame followed by a retry yields a frame identical (as a term over the successful reads) to an undisturbed run; handshake head is read with 1-byte requests only and nothing beyond it on the success path; TimeoutError/socket.timeout/SSL 'timed out' map to WebSocketTimeoutException, empty read to connection-closed; a timeout in the receive loop leaves reassembly and connection state untouched and writes nothing.",
+  "note": "Not decided: equality of observations over all packetisations and timeout multiplicities (value/schedule property); termination arithmetic of recv_strict. One timeout per call is injected (single-fault), at every read position.",
+  "technique": "abstract interpretation with fault injection at transport calls (typestate / effect traces)",
+ },
+ "C04": {
+  "text": "Finite reassembly model decided exhaustively: reassembly state {idle, text, binary} x opcode class x fin x per-fragment delivery on/off, interpreted through recv_data_frame and continuous_frame.validate/add/is_fire/extract with symbolic payloads; delivery, first opcode, in-order concatenation shape (acc ++ payload), reset, isolation from CLOSE/PING/PONG between fragments; recv() decodes TEXT as utf-8 and returns BINARY unchanged.",
+  "note": "Not decided: byte equality of concatenations for concrete contents (the shape acc ++ payload is what is shown); cross-message ordering follows from one-frame-per-iteration and is not separately shown.",
+  "technique": "abstract interpretation of a finite state x input-class product with symbolic payloads",
+ },
+ "C06": {
+  "text": "The validator's automaton is extracted from the source (transition function by constant folding of _decode's table lookups for every reachable state and byte; start state, early exits and final acceptance from _validate_utf8) and proved language-equal to the Unicode Table 3-7 automaton by product construction (all byte strings); thorough tier also against a second independently written reference. Placement: validation is applied to the reassembled message (the validated term is the delivered term), never to fragments, unreachable with skip_utf8_validation, failures raise payload/protocol exceptions.",
+  "note": "Trusted: the reference automaton written in the checker (cross-checked against a second one in the thorough tier). The optional wsaccel validator is absent from this build and not analysed.",
+  "technique": "DFA extraction from a literal table + product-automaton equivalence; abstract interpretation for call placement",
+ },
+ "C07": {
+  "text": "Per-opcode reply table of one iteration of the receive loop, from every reassembly state: PING (<=125) -> exactly one pong whose argument is the received frame's payload term, after the frame's last read and before the iteration ends, whether or not control frames are reported; PONG/data -> nothing written; CLOSE -> one send_close; pong()/ping() forward the payload unchanged (str encoded utf-8) with the right opcode.",
+  "note": "Ordering of pongs across several pings follows from one frame per loop iteration and is not separately shown. Well-formedness of the pong frame itself is C01's.",
+  "technique": "abstract interpretation: effect traces per input class",
+ },
+ "C08": {
+  "text": "Typestate over (connected, sock): close()/send_close()/the reply to a server close/_recv/shutdown are interpreted from each abstract state. Decided: out-of-range status refused before any write or state change; close payload pack('!H',status)+reason with opcode CLOSE; a close frame is written only while connected and marks the object unconnected (so at most one per connection, including the reply path); sock is dropped only after close() with connected=False; close() releases the transport from every state; I/O on a released object raises connection-closed without a transport call; the wait loop of close() consults the clock before every read and leaves on any exception.",
+  "note": "Not decided: that close() returns within its timeout (time), arbitrary interleavings of client calls and server events beyond the per-call typestate.",
+  "technique": "typestate analysis by abstract interpretation (effect traces, state before/after each API call)",
+ },
+ "C09": {
+  "text": "Status gate over all statuses 100-599 (interval partition); handshake() returns 101 only after a truthy _validate; the validator is decided over a grid of 864 header-value classes (Upgrade/Connection token lists, accept present/absent/equal, subprotocol offered/chosen) against an independent oracle, and the digest comparison is shown by value flow to compare base64(sha1(key+RFC GUID)) with the response's accept header; the key validated is the key sent; typestate of the response through the redirect loop for limits {default,0,1} (connected only with a final 101, at most limit follows); every failure closes every transport created, drops sock, leaves connected False and propagates.",
+  "note": "Trusted: hashlib.sha1, base64, hmac.compare_digest. Header-value classes are representatives of the token-list shapes, not all strings. Timeouts/EOF at every response byte are covered only in that any exception takes the cleanup handler.",
+  "technique": "abstract interpretation: constant propagation over a class grid, value-flow through opaque calls, typestate over the redirect loop",
+ },
+ "C12": {
+  "text": "Lock discipline read off effect traces (with.enter/with.exit events): every transport write of a frame is inside `with self.lock` and all partial writes of one frame share one critical section; the retry sends data[l:] with l the accepted count and send_frame returns only with an empty remainder; recv() holds the read lock around recv_data; all reads of a frame and the stage reset are in one frame-lock section; the three locks are distinct threading.Lock objects unless enable_multithread=False, defaults are True; lock-order graph acyclic; _socket.send performs one accepted write and returns its count.",
+  "note": "Thread interleavings are NOT explored: this decides the conditions under which the interleaving argument goes through, not atomicity under actual schedules. Receivers bypassing recv() (recv_data*) take no read lock by design.",
+  "technique": "lock-held-at-site and lock-order analysis over abstract-interpretation traces",
+ },
+
  "C05": {
   "text": "Complete accept/reject table of the receive path, computed from the source by path-enumerating abstract interpretation of WebSocket.recv_frame and recv_data_frame (through frame_buffer, ABNF.validate, continuous_frame.validate): every leaf of the partition of (header bits x length x close code x reason validity x skip flag x reassembly state) is compared with RFC 6455 must-reject / must-accept boxes by interval intersection, so all 16 opcodes x 8 rsv combinations, all lengths and all 65536 close codes are decided, not sampled. A failing class is reported with a concrete witness input and the path.",
   "note": "Trusted: recv_strict(n) returns exactly n bytes (its own structure is C02/C03's), validate_utf8 is an opaque boolean here (decided by C06), struct.unpack('!H'/'!Q') ranges, Python semantics of the statement kinds the interpreter implements. Codes 1012-1014 and 1016-2999 are left free. Not decided: nothing else of substance.",
